@@ -628,7 +628,7 @@ func (e *c08Env) do(path, enc, shape string, wire [][]byte, flags []byte, prefix
 			if v, ok := tr["grpc-status"]; ok {
 				st = v
 			} else {
-				st = w.Header().Get("Grpc-Status")
+				st = w.Result().Header.Get("Grpc-Status") // (the header as it went out)
 			}
 		}
 		resp.ok = w.Code == 200 && st == "0"
